@@ -277,7 +277,9 @@ def _load_bs(basis_dir, n, degree, verbose=False):
     best_size = np.inf
     for f in glob(os.path.join(basis_dir, file_mask)):
         size = int(f.split('_')[-2])  # (from '...basis_<size>_<degree>.npy')
-        if n <= size < best_size:
+        # (the cubic-spline basis depends on the image size, so it cannot be
+        #  cropped from a larger one -- same rule as for the memory cache)
+        if (size == n) if degree == 3 else (n <= size < best_size):
             best_size = size
             best_file = f
 
@@ -292,7 +294,7 @@ def _load_bs(basis_dir, n, degree, verbose=False):
         print('Incompatible cached basis-set file!')
         return None
 
-    if size > n:
+    if best_size > n:
         bs = bs[:n, :n]
         if verbose:
             print('(cropped to {})'.format(n))
